@@ -9,6 +9,47 @@ import (
 
 type Warnings []Warning
 
+// oncePerPair keeps the first ChildBornBeforeParent warning for each
+// (parent, child) and the first SiblingsBornTooClose warning for each pair of
+// siblings, in either order. The people are compared with IndividualNode.Is.
+// All other warnings, and the order of the warnings, are left as they are.
+func (ws Warnings) oncePerPair() (kept Warnings) {
+	parentChild := IndividualNodePairs{}
+	siblings := IndividualNodePairs{}
+
+	for _, w := range ws {
+		switch warning := w.(type) {
+		case *ChildBornBeforeParentWarning:
+			pair := &IndividualNodePair{
+				Left:  warning.Parent,
+				Right: warning.Child.Individual(),
+			}
+
+			if parentChild.hasInOrder(pair) {
+				continue
+			}
+
+			parentChild = append(parentChild, pair)
+
+		case *SiblingsBornTooCloseWarning:
+			pair := &IndividualNodePair{
+				Left:  warning.Sibling1.Individual(),
+				Right: warning.Sibling2.Individual(),
+			}
+
+			if siblings.Has(pair) {
+				continue
+			}
+
+			siblings = append(siblings, pair)
+		}
+
+		kept = append(kept, w)
+	}
+
+	return
+}
+
 func (ws Warnings) Strings() (ss []string) {
 	for _, w := range ws {
 		ss = append(ss, w.String())
